@@ -1,5 +1,6 @@
 import Femio.Model.FistrCnt
 import Femio.Model.FistrCntCanon
+import Femio.Model.FistrCntHist
 import Femio.Lemmas.CntProps
 import Femio.Lemmas.FistrTextProps
 import Femio.Lemmas.CntFile
@@ -511,5 +512,115 @@ def exCntBoth : CntIn := { exCnt with pureCflux := some [(2, ⟨false, 100000000
 example : ∃ r, (writeCnt exCntBoth).bind (readCnt []) = some r ∧
     r.cflux = none ∧ r.pureCflux = some [(15, ⟨true, 2250000000000, -12⟩), (2, ⟨false, 1000000000000, -12⟩)] :=
   C03_cflux_both_merged [] exCntBoth (by decide) _ _ rfl rfl
+
+/-! ### histories: the object is modified through public means between construction and `write()`
+
+Model: `Femio/Model/FistrCntHist.lean` - a live constraint kind is `(ids, arr, frame)` (`FEMAttribute._data` and
+`._data_frame`, which do not share memory), `ObjOp` = in-place edits through the arrays returned by `.data`, the data
+setter / `update_data` / `overwrite`, `.loc` / `.iloc` write-through, replacing / adding / removing a kind, changing the
+solution type.  `ObjSt.state` is the CURRENT public state `(.ids, .data)`; `HistCfg.fromArray` is whether the writer takes
+the `!BOUNDARY` / `!CLOAD` rows from `.data` (the tree) or from `data_frame` (seeded change C03-6). -/
+
+theorem zip_map_fst_snd {α β : Type} (l : List (α × β)) : (l.map (·.1)).zip (l.map (·.2)) = l := by
+  induction l with
+  | nil => rfl
+  | cons a l ih => simp only [List.map_cons, List.zip_cons_cons, ih]
+
+theorem rows_fresh {ρ : Type} (rows : List (Nat × ρ)) : (AttrSt.fresh rows).rows = rows := zip_map_fst_snd rows
+theorem frameRows_fresh {ρ : Type} (rows : List (Nat × ρ)) : (AttrSt.fresh rows).frameRows = rows := zip_map_fst_snd rows
+
+theorem optmap_fresh {ρ : Type} (g : AttrSt ρ → List (Nat × ρ)) (hg : ∀ rows, g (AttrSt.fresh rows) = rows)
+    (o : Option (List (Nat × ρ))) : (o.map AttrSt.fresh).map g = o := by
+  cases o with
+  | none => rfl
+  | some t => simp only [Option.map_some, hg]
+
+/-- the view of an object that is written as constructed is the input it was constructed from - whichever of the two
+    representations the writer reads -/
+theorem view_fresh (cfg : HistCfg) (c : CntIn) : (ObjSt.fresh c).view cfg = c := by
+  obtain ⟨fa⟩ := cfg
+  cases fa <;>
+    simp only [ObjSt.view, ObjSt.fresh, optmap_fresh _ rows_fresh, optmap_fresh _ frameRows_fresh, if_true, if_false,
+      Bool.false_eq_true]
+
+/-- **C03 (objects written as constructed cannot tell the writers apart)**: for an object that was not modified
+    between construction and `write()` the control file is `writeCnt c` whether the writer reads `.data` or the pandas
+    frame - which is why a check that writes every object exactly as constructed cannot see a writer that reads the
+    stale representation (seeded C03-6), and why the history dimension is needed. -/
+theorem C03_history_fresh_any_cfg (cfg : HistCfg) (c : CntIn) : writeObj cfg (ObjSt.fresh c) = writeCnt c := by
+  rw [writeObj, view_fresh]
+
+/-- **C03 (history, whole file)**: for every object `o`, every sequence `ops` of public modifications between
+    construction and `write()` (in-place edits through `.data`, data setter, write-through, replacing / adding /
+    removing kinds, solution type) whose final public state is well-formed, and every node-group map: the control file
+    written for the modified object reads back to exactly `expectedCnt` of its CURRENT public state
+    `(o.run ops).state` - prescriptions added, changed and released by the edits included. -/
+theorem C03_history_roundtrip (ng : List (Name × List Nat)) (o : ObjSt) (ops : List ObjOp) (h : WFCnt (o.run ops).state) :
+    (writeObj HistCfg.fixed (o.run ops)).bind (readCnt ng) = some (expectedCnt (o.run ops).state) :=
+  C03_file_roundtrip ng _ h
+
+/-- **C03 (history, the property)**: `C03_roundtrip` for the current public state of a modified object: the file written
+    after the modifications keeps the solution type and, per kind, exactly the prescription set `(node id, dof, value)`
+    of the table the object holds when `write()` is called. -/
+theorem C03_history_property (ng : List (Name × List Nat)) (o : ObjSt) (ops : List ObjOp) (h : WFCnt (o.run ops).state) :
+    ∃ r, (writeObj HistCfg.fixed (o.run ops)).bind (readCnt ng) = some r ∧ r.solution = (o.run ops).state.solution ∧
+      (∀ t, (o.run ops).state.boundary = some t → ∃ t', r.boundary = some t' ∧ ∀ p, Presc t' p ↔ Presc (decTable 5 t) p) ∧
+      (∀ t, (o.run ops).state.spring = some t → ∀ p, prescOpt r.spring p ↔ Presc (decTable 6 t) p) ∧
+      (∀ t, (o.run ops).state.cload = some t → ∃ t', r.cload = some t' ∧ ∀ p, Presc t' p ↔ Presc (decTable 6 t) p) ∧
+      scalarKept (o.run ops).state.fixtemp r.fixtemp ∧ scalarKept (o.run ops).state.cflux r.cflux ∧
+      scalarKept (o.run ops).state.pureCflux r.pureCflux := by
+  obtain ⟨r, hr, hs, hb, hsp, hl, h1, h2, h3⟩ := C03_roundtrip ng (o.run ops).state h
+  exact ⟨r, hr, hs, hb.2, hsp.2, hl.2, h1, h2, h3⟩
+
+/-- **C03 (history independence)**: the control file of a modified object is byte for byte the file of a FRESH object
+    constructed with the content the modified object holds at `write()`. -/
+theorem C03_history_fresh (o : ObjSt) (ops : List ObjOp) :
+    writeObj HistCfg.fixed (o.run ops) = writeObj HistCfg.fixed (ObjSt.fresh (o.run ops).state) := by
+  rw [C03_history_fresh_any_cfg]; rfl
+
+/-- an in-place edit through the array returned by `.data` IS part of the state that is written: after
+    `boundary.data[r] = f boundary.data[r]` the state's boundary table is the old one with row `r` replaced -/
+theorem C03_history_poke_state (o : ObjSt) (r : Nat) (f : TRow → TRow) :
+    (o.step (.table .boundary (.poke r f))).state.boundary = o.boundary.map fun a => a.ids.zip (modifyAt a.arr r f) := by
+  cases hb : o.boundary <;> simp [ObjSt.step, ObjSt.getT, ObjSt.setT, ObjSt.view, HistCfg.fixed, AttrSt.step, AttrSt.rows, hb]
+
+/-- `exCnt` constructed, then - the idiom of femio's `tests/util/test_random_generator.py`,
+    `constraints['boundary'].data[-1] = …` - edited in place: dof 1 of node 3 RELEASED, dof 1 of node 7 newly prescribed
+    (`2.50000E+00`), the all-NaN row of node 12 set to `1.00000E-03` on every dof; the load of node 4 changed -/
+def exHistOps : List ObjOp :=
+  [.table .boundary (.poke 1 (·.set 0 none)),
+   .table .boundary (.poke 0 (·.set 0 (some ⟨false, 250000, 0⟩))),
+   .table .boundary (.poke 2 (fun _ => [some ⟨false, 100000, -3⟩, some ⟨false, 100000, -3⟩, some ⟨false, 100000, -3⟩])),
+   .table .cload (.poke 0 (·.set 1 (some ⟨false, 7500000, -1⟩)))]
+
+def exHistObj : ObjSt := (ObjSt.fresh exCnt).run exHistOps
+
+example : exHistObj.state.boundary =
+    some [(7, [some ⟨false, 250000, 0⟩, some ⟨false, 150000, 0⟩, none]), (3, [none, none, some ⟨false, 0, 0⟩]),
+          (12, [some ⟨false, 100000, -3⟩, some ⟨false, 100000, -3⟩, some ⟨false, 100000, -3⟩])] := by decide
+example : WFCnt exHistObj.state := by decide
+/-- through the theorem: after the round trip node 7 is fixed to `2.5` on dof 1 (added by the edit) -/
+example : ∃ r, (writeObj HistCfg.fixed exHistObj).bind (readCnt []) = some r ∧
+    ∃ t', r.boundary = some t' ∧ Presc t' (7, 1, ⟨false, 250000, -5⟩) := by
+  obtain ⟨r, hr, -, hb, -⟩ := C03_history_property [] (ObjSt.fresh exCnt) exHistOps (by decide)
+  obtain ⟨t', ht', hp⟩ := hb _ rfl
+  refine ⟨r, hr, t', ht', (hp _).mpr ?_⟩
+  exact ⟨(7, [some ⟨false, 250000, -5⟩, some ⟨false, 150000, -5⟩, none]), by decide, rfl, by decide, rfl⟩
+
+/-- **C03 (counterexample: a writer that reads the pandas frame)**: with `fromArray := false` (the `!BOUNDARY` /
+    `!CLOAD` rows taken from `data_frame`, seeded change C03-6) the file written for the object edited in place is the
+    file of the table as it was when the attribute was created - read back, it is NOT the current state of the object
+    (the released dof of node 3 comes back as a prescription, the new values are missing), while both files are
+    well-formed and read without error. -/
+theorem C03_history_counterexample_frame_writer :
+    ∃ (o : ObjSt) (ops : List ObjOp), WFCnt (o.run ops).state ∧
+      (writeObj ⟨false⟩ (o.run ops)).bind (readCnt []) = some (expectedCnt exCnt) ∧
+      (writeObj HistCfg.fixed (o.run ops)).bind (readCnt []) = some (expectedCnt (o.run ops).state) ∧
+      (expectedCnt exCnt).boundary ≠ (expectedCnt (o.run ops).state).boundary ∧
+      (expectedCnt exCnt).cload ≠ (expectedCnt (o.run ops).state).cload := by
+  refine ⟨ObjSt.fresh exCnt, exHistOps, by decide, ?_, C03_history_roundtrip [] _ _ (by decide), by decide, by decide⟩
+  have hv : ((ObjSt.fresh exCnt).run exHistOps).view ⟨false⟩ = exCnt := rfl
+  rw [writeObj, hv]
+  exact C03_file_roundtrip [] exCnt (by decide)
 
 end Femio.C03
